@@ -44,7 +44,7 @@ let () =
   let scen = ref "" in
   let insync = ref true in
   let lineno = ref 0 in
-  let compared = ref 0 and skipped = ref 0 and mism = ref 0 and monf = ref 0 in
+  let compared = ref 0 and skipped = ref 0 and mism = ref 0 and monf = ref 0 and diag = ref 0 in
   let kinds : (int, int) Hashtbl.t = Hashtbl.create 64 in
   (try
     while true do
@@ -79,6 +79,10 @@ let () =
                 incr monf;
                 if !monf <= maxrep then
                   Printf.printf "MONITOR_FAIL line=%d kind=%d scenario=%s expected=[%s] observed=[%s]\n" !lineno ki !scen (show exp) (show obs)
+              end else if is_diag kind then begin
+                incr diag;
+                if !diag <= 5 then
+                  Printf.printf "DIAG line=%d kind=%d scenario=%s expected=[%s] observed=[%s]\n" !lineno ki !scen (show exp) (show obs)
               end else begin
                 incr mism; insync := false;
                 if !mism <= maxrep then
@@ -91,6 +95,6 @@ let () =
   with End_of_file -> ());
   close_in ic;
   let ks = Hashtbl.fold (fun k v acc -> (k, v) :: acc) kinds [] |> List.sort compare in
-  Printf.printf "SUMMARY lines=%d compared=%d skipped=%d mismatches=%d monitor_fails=%d kinds=%s\n"
-    !lineno !compared !skipped !mism !monf
+  Printf.printf "SUMMARY lines=%d compared=%d skipped=%d mismatches=%d monitor_fails=%d diag=%d kinds=%s\n"
+    !lineno !compared !skipped !mism !monf !diag
     (String.concat "," (List.map (fun (k, v) -> Printf.sprintf "%d:%d" k v) ks))
